@@ -51,6 +51,9 @@ def gen_pipelines(rng, tier, npipes=None, big=False, pool=None, p_enc=0.4):
         if main == 'utf-8' and rng.chance(0.5):
             del wspec['main_encoding']      # the constructor's default
 
+        if rng.chance(0.04):
+            wspec['write_returns_none'] = True  # a sink that returns nothing
+
         actors.append(wspec)
         r = {'id': rid, 'kind': 'reader', 'file': fname}
         k = rng.below(10)
